@@ -18,18 +18,22 @@ GUARD_BOUNDS = dict(
     slice_prefix_bytes=64, slice_size_scaler=64,
 )
 MAX_LUMA = 64
+VGUARD_TRIPPED = [None]  # set when the validator guard fires (the CLI swallows the exception)
 
 
 def _guarded(orig):
     def assert_level_constraint(state, key, value):
         b = GUARD_BOUNDS.get(key)
         if b is not None and isinstance(value, int) and value > b:
+            VGUARD_TRIPPED[0] = "%s=%r" % (key, value)
             raise OutOfScope("%s=%r" % (key, value))
         if key == "wavelet_index":
             # first picture-level constraint: picture dimensions known (covers base-format sizes)
             if state.get("luma_width", 0) > MAX_LUMA or state.get("luma_height", 0) > MAX_LUMA:
+                VGUARD_TRIPPED[0] = "luma size"
                 raise OutOfScope("luma %sx%s" % (state.get("luma_width"), state.get("luma_height")))
             if state.get("luma_depth", 0) > 33 or state.get("color_diff_depth", 0) > 33:
+                VGUARD_TRIPPED[0] = "depth"
                 raise OutOfScope("depth")
         return orig(state, key, value)
 
@@ -158,11 +162,15 @@ DESER_BOUNDS = dict(luma_width=64, luma_height=64, color_diff_width=64, color_di
                     slice_bytes_numerator=4096, luma_depth=33, color_diff_depth=33)
 
 
+GUARD_TRIPPED = [None]  # set when the deserialiser guard fires (the viewer swallows the exception)
+
+
 def _deser_guarded(orig):
     def guarded(serdes, state, *args, **kwargs):
         for k, b in DESER_BOUNDS.items():
             v = state.get(k, 0)
             if isinstance(v, int) and v > b:
+                GUARD_TRIPPED[0] = "%s=%r" % (k, v)
                 raise OutOfScope("%s=%r" % (k, v))
         return orig(serdes, state, *args, **kwargs)
 
